@@ -85,6 +85,108 @@ def reachable_outside_vfs(prog: Program, cg: CallGraph, roots: list[str]) -> set
     return seen
 
 
+def _supplied_store_kept(prog: Program, ev: Evidence) -> list[Finding]:
+    """C16-R4: `self.user.vfs` is the access path of every filestore call (R2); it denotes the supplied object only if the
+    user base class stores its constructor argument unchanged whenever one is supplied. The constructor is evaluated over
+    the two-point domain {SUPPLIED, OTHER}: `is None` tests are decided, truth tests of the supplied object are not (an
+    object may be falsy: empty container-like stores)."""
+    ev.rule("C16-R4", "the user base class stores the supplied filestore object itself whenever one is supplied (identity, not truthiness)", 1)
+    out: list[Finding] = []
+    cands = []
+    for ci in prog.classes.values():
+        init = ci.methods.get("__init__")
+        if init is None:
+            continue
+        if any(isinstance(n, ast.Attribute) and n.attr == "vfs" and isinstance(n.ctx, ast.Store) and ast.unparse(n.value) == "self" for n in ast.walk(init.node)):
+            cands.append((ci, init))
+    if not cands:
+        raise AnalysisError("no class stores a `vfs` attribute in its constructor (anchor of the filestore access path vanished)")
+    for ci, init in cands:
+        params = [a.arg for a in init.node.args.args[1:] + init.node.args.kwonlyargs]
+        ann = {a.arg: ast.unparse(a.annotation) if a.annotation is not None else "" for a in init.node.args.args[1:] + init.node.args.kwonlyargs}
+        par = next((p for p in params if "Filestore" in ann.get(p, "") or p == "vfs"), None)
+        if par is None:
+            ev.inst("C16-R4", f"{ci.qualname}.__init__ takes no filestore argument", "ok", loc(init, init.node))
+            continue
+
+        S, O = "SUPPLIED", "OTHER"
+
+        def ev_expr(e: ast.expr, env: dict[str, set[str]]) -> set[str]:
+            if isinstance(e, ast.Name):
+                return set(env.get(e.id, {O}))
+            if isinstance(e, ast.IfExp):
+                t = test(e.test, env)
+                r: set[str] = set()
+                if t in (True, None):
+                    r |= ev_expr(e.body, env)
+                if t in (False, None):
+                    r |= ev_expr(e.orelse, env)
+                return r
+            if isinstance(e, ast.BoolOp):
+                r = set()
+                for i, v in enumerate(e.values):
+                    vals = ev_expr(v, env)
+                    last = i == len(e.values) - 1
+                    if last:
+                        r |= vals
+                        break
+                    # `a or b`: a is the result when truthy; the supplied object's truthiness is unknown -> both
+                    if isinstance(e.op, ast.Or):
+                        r |= vals  # may be the result
+                        if vals == {O} and isinstance(v, ast.Constant) and not v.value:
+                            r -= vals
+                    else:
+                        r |= vals  # `a and b`: a is the result when falsy
+                return r
+            return {O}
+
+        def test(t: ast.expr, env: dict[str, set[str]]) -> bool | None:
+            if isinstance(t, ast.Compare) and len(t.ops) == 1 and isinstance(t.comparators[0], ast.Constant) and t.comparators[0].value is None and isinstance(t.left, ast.Name):
+                vals = env.get(t.left.id, {O})
+                if vals == {S}:
+                    return isinstance(t.ops[0], (ast.IsNot, ast.NotEq))
+                return None
+            if isinstance(t, ast.UnaryOp) and isinstance(t.op, ast.Not):
+                r = test(t.operand, env)
+                return None if r is None else not r
+            return None  # truthiness of the supplied object and anything else: undecided
+
+        def run(body: list[ast.stmt], envs: list[dict[str, set[str]]]) -> list[dict[str, set[str]]]:
+            for st in body:
+                nxt: list[dict[str, set[str]]] = []
+                for env in envs:
+                    if isinstance(st, ast.If):
+                        t = test(st.test, env)
+                        if t in (True, None):
+                            nxt += run(st.body, [dict(env)])
+                        if t in (False, None):
+                            nxt += run(st.orelse, [dict(env)])
+                    elif isinstance(st, (ast.Assign, ast.AnnAssign)) and getattr(st, "value", None) is not None:
+                        tgts = st.targets if isinstance(st, ast.Assign) else [st.target]
+                        v = ev_expr(st.value, env)
+                        for tg in tgts:
+                            if isinstance(tg, ast.Name):
+                                env[tg.id] = v
+                            elif isinstance(tg, ast.Attribute) and ast.unparse(tg) == "self.vfs":
+                                env["$self.vfs"] = v
+                        nxt.append(env)
+                    else:
+                        nxt.append(env)
+                envs = nxt
+            return envs
+
+        finals = run(init.node.body, [{par: {S}}])
+        stored: set[str] = set()
+        for env in finals:
+            stored |= env.get("$self.vfs", {O})
+        ok = stored == {S}
+        ev.inst("C16-R4", f"{ci.qualname}.__init__: self.vfs is the supplied `{par}` on every path where one is supplied", "ok" if ok else "violation", loc(init, init.node))
+        if not ok:
+            out.append(Finding("C16-R4", f"{ci.qualname}.__init__ | self.vfs may differ from the supplied {par}",
+                               f"with a filestore supplied, the constructor can store a different object in self.vfs (decision taken on the truthiness of `{par}` or through another expression): the handlers then work on a store the user did not supply", loc(init, init.node)))
+    return out
+
+
 def check(ctx: Ctx, ev: Evidence) -> list[Finding]:
     prog = ctx.prog
     tenv = TypeEnv(prog)
@@ -149,6 +251,7 @@ def check(ctx: Ctx, ev: Evidence) -> list[Finding]:
                 ev.inst("C16-R3", f"{q} | vfs.{c.name}", "ok" if ok3 else "violation", loc(fi, c.node))
                 if not ok3:
                     findings.append(Finding("C16-R3", f"{q} | vfs.{c.name}", f"method {c.name} is not part of the VirtualFilestore interface", loc(fi, c.node)))
+    findings += _supplied_store_kept(prog, ev)
     # fixture
     fx = Program(root=VERIF / "fixtures" / "c16", pkg="fixpkg")
     fcg = CallGraph(fx)
